@@ -485,7 +485,7 @@ func (e *SpecEnv) binary(n *ast.BinaryExpr) TV {
 		default:
 			e.fail("float op %s", n.Op)
 		}
-		return TV{T: fmt.Sprintf("(%s RNE %s %s)", op, a.T, b.T), Ty: a.Ty}
+		return TV{T: e.vc.fpArith(op, a.T, b.T, e.vc.sortOf(a.Ty)), Ty: a.Ty}
 	}
 	if e.vc.sortOf(a.Ty) == sRef {
 		// Ref arithmetic/comparison (allocation order)
